@@ -40,12 +40,14 @@ PLANS = {
                ["C01:crashed-mid-scan", "C01:removed-a", "C01:removed-b", "C01:removed-c", "C01:kept-soft-not-passed", "C01:kept-busy-before-hard",
                 "C01:kept-unreadable-taint-time", "C01:kept-cordoned", "C01:kept-force-busy"]),
     "C02": ctl(["lock"], ["lock", "lock@v2", "lock@v3"],
-               [D("lock", twin=True, faults=8), D("mix", twin=True), D("lock", n=32, steps=32, procs=1, par=32, groups=2, faults=5, realtime="4s")],
+               [D("lock", twin=True, faults=8), D("mix", twin=True), D("lock", n=32, steps=32, procs=1, par=32, groups=2, faults=5, realtime="4s"),
+                D("lock", n=3, steps=45, procs=8, faults=20, refresh=True, groups=2)],
                [D("lock", n=60, steps=100, procs=8, twin=True, faults=8), D("mix", n=40, steps=100, procs=8, twin=True),
-                D("lock", n=64, steps=70, procs=2, par=32, groups=2, faults=5, realtime="4s")],
+                D("lock", n=64, steps=70, procs=2, par=32, groups=2, faults=5, realtime="4s"),
+                D("lock", n=10, steps=60, procs=12, faults=20, refresh=True, groups=2)],
                "cases: model states + seeded histories with a twin scan (same world, fresh controller) at every scan; non-trivial: a scan inside a cool-down "
                "(incl. below-minimum and removable nodes), or a scan after the cool-down in which the group is acted on again",
-               ["C02:scan-in-cooldown", "C02:cooldown-below-min", "C02:cooldown-removable", "C02:acts-after-cooldown", "C02:twin-acts"]),
+               ["C02:scan-in-cooldown", "C02:cooldown-below-min", "C02:cooldown-removable", "C02:acts-after-cooldown", "C02:twin-acts", "C02:refresh-failed-in-cooldown"]),
     "C03": ctl(["updown", "auto", "all_scale"], ["updown", "updown@v2", "updown@v3", "auto", "lock", "all_scale"],
                [D("down", faults=10), D("mix")],
                [D("down", n=60, steps=100, procs=8, faults=10), D("mix", n=60, steps=100, procs=8)],
@@ -161,9 +163,10 @@ PLANS["C05"] = dict(kind="func", stages=[calc_stage("delta", max_t=150000)],
                     required_facts=["C05:above-threshold", "C05:exactly-on-threshold", "C05:memory-bound", "C05:cpu-bound", "C05:from-zero-cached", "C05:from-zero-no-cache", "C05:large-magnitude"],
                     assumptions=FUNC_ASSUMPTIONS + COMMON_ASSUMPTIONS,
                     also_ctl=ctl(["updown"], ["updown"],
-                                 [D("up", faults=0, dry=0, fine=True), D("mix", faults=0, dry=0, fine=True)],
-                                 [D("up", n=60, steps=100, procs=8, faults=0, dry=0, fine=True), D("mix", n=60, steps=100, procs=8, faults=0, dry=0, fine=True)],
-                                 "see function level", ["C05:scale-up"]))
+                                 [D("up", faults=0, dry=0, fine=True), D("mix", faults=0, dry=0, fine=True), D("fromzero", n=12, steps=60, groups=1, faults=0, dry=0)],
+                                 [D("up", n=60, steps=100, procs=8, faults=0, dry=0, fine=True), D("mix", n=60, steps=100, procs=8, faults=0, dry=0, fine=True),
+                                  D("fromzero", n=60, steps=70, procs=8, groups=1, faults=0, dry=0)],
+                                 "see function level", ["C05:scale-up", "C05:ctl-from-zero"]))
 PLANS["C13"] = dict(kind="func", stages=[calc_stage("pods"), calc_stage("nodes"), calc_stage("delta", max_q=1500, max_t=30000)],
                     rule="cases: every pod shape of the universe (0-3 containers, 0-2 init containers, overhead, missing requests, quantities in mixed notations) singly and in sampled bags listed in 4 orders; "
                          "node allocatable lists in 4 orders; the utilisation grid; controller level: request / capacity / percent gauges after every scan of the histories",
